@@ -305,6 +305,9 @@ func evalC20(c *engine.Case) engine.Verdict {
 	if gc.Hash {
 		v.Class("hashcode-vertices")
 	}
+	if n > 24 {
+		v.Class("vertices>24")
+	}
 	v.Class(fmt.Sprintf("n=%d", min(n/4*4, 20)))
 	v.NonTrivial = bigSCC || multiOrder || gate
 	return v
